@@ -25,22 +25,22 @@ ASSUMPTIONS = ['cells and arguments are right-typed ints / strings / row ids wit
                'requests with an empty `require` have one input row; both-empty requests without allow_empty_require, `id` as a '
                'require / col_values key and values for formula columns are not generated (the statement does not cover them)',
                'row ids of added records are whatever the engine reports, provided they are new distinct rows (C27 judges allocation)']
-REQUIRED = {'upserts_judged': {'quick': 3000, 'thorough': 40000},
-            'rows_added': {'quick': 600, 'thorough': 8000},
-            'rows_updated_first_of_many': {'quick': 150, 'thorough': 2000},
-            'rows_updated_all_of_many': {'quick': 150, 'thorough': 2000},
-            'rows_skipped_none_of_many': {'quick': 100, 'thorough': 1500},
-            'rows_not_updated_update_false': {'quick': 100, 'thorough': 1500},
-            'rows_not_added_add_false': {'quick': 100, 'thorough': 1500},
-            'empty_require_allowed': {'quick': 100, 'thorough': 1500},
-            'require_on_formula_column': {'quick': 800, 'thorough': 10000},
-            'require_on_formula_dirtied_in_bundle': {'quick': 200, 'thorough': 3000},
-            'rejections_checked': {'quick': 500, 'thorough': 6000},
-            'rejection.mismatched_lengths': {'quick': 80, 'thorough': 1000},
-            'rejection.duplicate_require': {'quick': 80, 'thorough': 1000},
-            'rejection.empty_require': {'quick': 80, 'thorough': 1000},
-            'rejection.bad_on_many': {'quick': 80, 'thorough': 1000},
-            'failures_checked': {'quick': 500, 'thorough': 6000}}
+REQUIRED = {'upserts_judged': {'quick': 3000, 'thorough': 12000},
+            'rows_added': {'quick': 600, 'thorough': 2400},
+            'rows_updated_first_of_many': {'quick': 150, 'thorough': 600},
+            'rows_updated_all_of_many': {'quick': 150, 'thorough': 600},
+            'rows_skipped_none_of_many': {'quick': 100, 'thorough': 400},
+            'rows_not_updated_update_false': {'quick': 100, 'thorough': 400},
+            'rows_not_added_add_false': {'quick': 100, 'thorough': 400},
+            'empty_require_allowed': {'quick': 100, 'thorough': 400},
+            'require_on_formula_column': {'quick': 800, 'thorough': 3200},
+            'require_on_formula_dirtied_in_bundle': {'quick': 200, 'thorough': 800},
+            'rejections_checked': {'quick': 500, 'thorough': 2000},
+            'rejection.mismatched_lengths': {'quick': 80, 'thorough': 320},
+            'rejection.duplicate_require': {'quick': 80, 'thorough': 320},
+            'rejection.empty_require': {'quick': 80, 'thorough': 320},
+            'rejection.bad_on_many': {'quick': 80, 'thorough': 320},
+            'failures_checked': {'quick': 500, 'thorough': 2000}}
 SHARD_TIMEOUT = {'quick': 600, 'thorough': 2400}
 
 DATA = [('K', 'Int'), ('K2', 'Text'), ('R', 'Ref:U'), ('V', 'Int'), ('W', 'Text')]
@@ -53,7 +53,7 @@ ALPHA = {'K': [0, 1, 2, 3], 'K2': ['a', 'b', 'c'], 'V': [0, 1, 2, 3, 4, 5], 'W':
 
 
 def plan(tier, seed):
-  n, docs, bundles = (16, 2, 150) if tier == 'quick' else (48, 4, 380)
+  n, docs, bundles = (16, 2, 150) if tier == 'quick' else (32, 3, 280)
   return [{'hseed': seed * 100003 + 2800 + i, 'docs': docs, 'bundles': bundles} for i in range(n)]
 
 
